@@ -1,1 +1,83 @@
-// kani harnesses (included from /repo under cfg(kani))
+// C21-O2: grouping keys — `impl Hash for Value` must agree with the derived `==` (one group per distinct key).
+// Included from /repo/nervusdb-query/src/executor/core_types.rs under cfg(kani).
+use super::*;
+
+/// transparent hasher: collects the bytes fed to it, so "same hash" means "same byte stream"
+struct Collect {
+    buf: [u8; 32],
+    n: usize,
+}
+impl Hasher for Collect {
+    fn finish(&self) -> u64 {
+        0
+    }
+    fn write(&mut self, b: &[u8]) {
+        let mut i = 0;
+        while i < b.len() {
+            if self.n < 32 {
+                self.buf[self.n] = b[i];
+                self.n += 1;
+            }
+            i += 1;
+        }
+    }
+}
+fn h(v: &Value) -> ([u8; 32], usize) {
+    let mut c = Collect { buf: [0u8; 32], n: 0 };
+    v.hash(&mut c);
+    (c.buf, c.n)
+}
+fn hash_eq(a: Value, b: Value) {
+    let eq = a == b;
+    let ha = h(&a);
+    let hb = h(&b);
+    std::mem::forget((a, b));
+    kani::cover!(eq, "witness: equal keys reachable");
+    kani::cover!(!eq, "witness: different keys reachable");
+    if eq {
+        assert!(ha == hb, "grouping: equal keys hash equally");
+    }
+}
+
+#[kani::proof]
+#[kani::unwind(34)]
+fn c21_o2_q_float_float() {
+    hash_eq(Value::Float(kani::any()), Value::Float(kani::any()));
+}
+#[kani::proof]
+#[kani::unwind(34)]
+fn c21_o2_q_int_int() {
+    hash_eq(Value::Int(kani::any()), Value::Int(kani::any()));
+}
+#[kani::proof]
+#[kani::unwind(34)]
+fn c21_o2_q_bool_bool() {
+    hash_eq(Value::Bool(kani::any()), Value::Bool(kani::any()));
+}
+#[kani::proof]
+#[kani::unwind(34)]
+fn c21_o2_q_datetime_datetime() {
+    hash_eq(Value::DateTime(kani::any()), Value::DateTime(kani::any()));
+}
+#[kani::proof]
+#[kani::unwind(34)]
+fn c21_o2_q_nodeid_nodeid() {
+    hash_eq(Value::NodeId(kani::any()), Value::NodeId(kani::any()));
+}
+
+/// different kinds are different keys under `==` (Int 1 and Float 1.0 are two groups by design of `==`);
+/// recorded so a change that merges kinds in `==` but not in Hash is caught.
+#[kani::proof]
+#[kani::unwind(34)]
+fn c21_o2_q_int_float_distinct_keys() {
+    let a = Value::Int(kani::any());
+    let b = Value::Float(kani::any());
+    let eq = a == b;
+    let ha = h(&a);
+    let hb = h(&b);
+    std::mem::forget((a, b));
+    kani::cover!(true, "witness: reached");
+    if eq {
+        assert!(ha == hb, "grouping: equal keys hash equally");
+    }
+}
